@@ -1,10 +1,208 @@
 import QP.Model.C14
-/-! Property theorems for C14 (time values are exact rationals; best rational approximation). -/
+import QP.Proofs.C14Int
+import QP.Proofs.C14Rat
+import QP.Proofs.C14Ops
+/-!
+Property theorems for C14 (time values are exact rationals; best rational approximation).
+
+Only the statements live here; the proofs are in `QP/Proofs/C14Int.lean` (one loop iteration, the
+loop invariant, termination), `QP/Proofs/C14Rat.lean` (the arithmetic preamble of
+`approximate_rational`, the judge) and `QP/Proofs/C14Ops.lean` (operator table).
+Every theorem is followed by an `example` showing that its hypotheses are satisfiable and its
+conclusion non-trivial on a concrete input (`decide +kernel` = evaluation by the Lean kernel).
+-/
 namespace QP.Props.C14
 open QP.C14
+
+/-! ## the judge is the specification -/
+
+/-- the executable judge applied to the implementation's answers decides exactly `IsBestApprox` -/
+theorem judge_iff (x e r : Rat) : isBestApproxB x e r = true ↔ IsBestApprox x e r :=
+  isBestApproxB_iff x e r
+
+example : isBestApproxB (355/113) (1/100) (22/7) = true := by decide +kernel
+example : isBestApproxB (355/113) (1/100) (3/1) = false := by decide +kernel       -- not inside
+example : isBestApproxB (355/113) (1/100) (311/99) = false := by decide +kernel    -- inside, not minimal
+
+/-- the per-denominator test of the judge: an integer `p` with `lo < p/q < hi` exists -/
+theorem judge_denominator_iff (lo hi : Rat) (q : Nat) (hq : 0 < q) :
+    hasFractionWithDen lo hi q = true ↔ ∃ p : Int, lo < mkRat p q ∧ mkRat p q < hi :=
+  hasFractionWithDen_iff lo hi q hq
+
+example : hasFractionWithDen (1/3) (1/2) 5 = true := by decide +kernel     -- 2/5
+example : hasFractionWithDen (1/3) (1/2) 4 = false := by decide +kernel
+
+/-! ## `approximate_rational` -/
 
 /-- a non-positive tolerance is rejected, never approximated -/
 theorem approx_rejects (x e : Rat) (h : e ≤ 0) : approximateRational x e = .error .valueError := by
   simp [approximateRational, approximateRationalPair, h]
+
+example : approximateRational (1/3) 0 = .error .valueError := by decide +kernel
+
+/-- **Main theorem.** For every rational `x` and every tolerance `e > 0` the model of
+`approximate_rational` returns (the `while True` loop terminates within `fuelFor`, no division by
+zero occurs) and what it returns lies strictly inside `(x - e, x + e)` and has the smallest
+denominator of all fractions strictly inside. -/
+theorem approx_best (x e : Rat) (he : 0 < e) :
+    ∃ r, approximateRational x e = .ok r ∧ IsBestApprox x e r :=
+  approximateRational_spec x e he
+
+example : approximateRational (355/113) (1/100) = .ok (22/7) := by decide +kernel
+example : approximateRational (-7/3) (1/1000) = .ok (-7/3) := by decide +kernel
+example : approximateRational (2/3) (1/2) = .ok 1 := by decide +kernel     -- 1/1 inside: first iteration
+example : approximateRational (1/10) (1/5) = .ok 0 := by decide +kernel     -- alpha < d
+example : approximateRational (3602879701896397/36028797018963968) (1/10^9) = .ok (1/10) := by
+  decide +kernel
+
+/-- whatever the model returns is the best approximation (no hypothesis on `e` needed: for `e ≤ 0`
+nothing is returned) -/
+theorem approx_ok_best (x e r : Rat) (h : approximateRational x e = .ok r) : IsBestApprox x e r := by
+  rcases lt_or_ge 0 e with he | he
+  · obtain ⟨r', h', hb⟩ := approximateRational_spec x e he
+    rw [h] at h'
+    cases h'
+    exact hb
+  · rw [approx_rejects x e he] at h
+    cases h
+
+/-- totality: for a positive tolerance no error is raised — neither `ZeroDivisionError`
+nor running out of fuel (= non-termination of the Python loop) -/
+theorem approx_total (x e : Rat) (he : 0 < e) (err : Err) : approximateRational x e ≠ .error err := by
+  obtain ⟨r, h, _⟩ := approximateRational_spec x e he
+  rw [h]
+  intro h'
+  cases h'
+
+/-- the two halves of `IsBestApprox` under their DESIGN names -/
+theorem approx_inside (x e r : Rat) (h : approximateRational x e = .ok r) : x - e < r ∧ r < x + e :=
+  ⟨(approx_ok_best x e r h).1, (approx_ok_best x e r h).2.1⟩
+
+theorem approx_minimal (x e r : Rat) (h : approximateRational x e = .ok r)
+    (p : Int) (q : Nat) (hq : 0 < q) (hlo : x - e < mkRat p q) (hhi : mkRat p q < x + e) :
+    r.den ≤ q :=
+  (approx_ok_best x e r h).2.2 p q hq hlo hhi
+
+/-- the model's answer always passes the judge -/
+theorem approx_passes_judge (x e r : Rat) (h : approximateRational x e = .ok r) :
+    isBestApproxB x e r = true :=
+  (judge_iff x e r).mpr (approx_ok_best x e r h)
+
+/-- `_approximate_int` itself, under the guard its caller establishes (`0 < d ≤ alpha < den`):
+fuel `den + 2` suffices, no error, the result `P/Q` lies strictly inside
+`((alpha-d)/den, (alpha+d)/den)` and every fraction strictly inside has denominator `≥ Q`. -/
+theorem approxInt_terminates_best (alpha d den : Int) (hd : 0 < d) (hda : d ≤ alpha)
+    (had : alpha < den) :
+    ∃ P Q, approxInt (fuelFor den) alpha d den = .ok (P, Q) ∧ 0 < Q ∧
+      (alpha - d) * Q < den * P ∧ den * P < (alpha + d) * Q ∧
+      ∀ p q : Int, 0 < q → (alpha - d) * q < den * p → den * p < (alpha + d) * q → Q ≤ q := by
+  obtain ⟨P, Q, h, g⟩ := approxInt_spec alpha d den hd hda had
+  exact ⟨P, Q, h, g.qpos, g.lo, g.hi, g.min⟩
+
+example : approxInt (fuelFor 113) 16 1 113 = .ok (1, 7) := by decide +kernel   -- 16/113 ± 1/113 → 1/7
+example : approxInt (fuelFor 1000) 415 1 1000 = .ok (17, 41) := by decide +kernel
+
+/-- one loop iteration preserves the invariant and strictly increases `q_b`, or returns the
+best approximation (this is the induction step of `approx_best`, exported because the
+correspondence compares the model with the code iteration by iteration in effect) -/
+theorem approx_step (alpha lower upper den : Int) (s : St)
+    (hden : 0 < den) (hl : lower < alpha) (hu : alpha < upper) (hinv : Inv alpha lower upper den s) :
+    (∃ s', step alpha lower upper den s = .ok (.inl s') ∧ Inv alpha lower upper den s' ∧ s.qb < s'.qb) ∨
+    (∃ P Q, step alpha lower upper den s = .ok (.inr (P, Q)) ∧ Good lower upper den P Q) :=
+  step_spec alpha lower upper den s hden hl hu hinv
+
+example : Inv 415 414 416 1000 St.init := Inv.init 415 414 416 1000 (by omega) (by omega) (by omega)
+
+/-! ## operator table: the answers are the rational-field answers -/
+
+/-- the driver's binary operators are the `Rat` field operations / order relations; a zero divisor
+is an error for `/`, `//`, `%` -/
+theorem op_is_rat_op (a b : Rat) :
+    binop "add" a b = Sexp.ofRat (a + b) ∧ binop "sub" a b = Sexp.ofRat (a - b) ∧
+    binop "mul" a b = Sexp.ofRat (a * b) ∧
+    (b ≠ 0 → binop "truediv" a b = Sexp.ofRat (a / b)) ∧
+    (b ≠ 0 → binop "floordiv" a b = Sexp.ofInt (a / b).floor) ∧
+    (b ≠ 0 → binop "mod" a b = Sexp.ofRat (a - b * (a / b).floor)) ∧
+    (b = 0 → binop "truediv" a b = errS .zeroDivision ∧ binop "floordiv" a b = errS .zeroDivision ∧
+      binop "mod" a b = errS .zeroDivision) ∧
+    binop "lt" a b = Sexp.ofBool (a < b) ∧ binop "le" a b = Sexp.ofBool (a ≤ b) ∧
+    binop "gt" a b = Sexp.ofBool (b < a) ∧ binop "ge" a b = Sexp.ofBool (b ≤ a) ∧
+    binop "eq" a b = Sexp.ofBool (a = b) :=
+  binop_table a b
+
+theorem unop_is_rat_op (a : Rat) :
+    unop "neg" a = Sexp.ofRat (-a) ∧ unop "abs" a = Sexp.ofRat (if a < 0 then -a else a) ∧
+    unop "floor" a = Sexp.ofInt a.floor ∧ unop "ceil" a = Sexp.ofInt a.ceil ∧
+    unop "trunc" a = Sexp.ofInt (pyTrunc a) ∧ unop "int" a = Sexp.ofInt (pyTrunc a) ∧
+    unop "round" a = Sexp.ofInt (roundHalfEven a) ∧ unop "hash" a = Sexp.ofInt (pyHashRat a) :=
+  unop_table a
+
+/-- mixed-type operations are symmetric: the operand order only matters the way it does in ℚ -/
+theorem mixed_symmetric (a b : Rat) :
+    binop "add" a b = binop "add" b a ∧ binop "mul" a b = binop "mul" b a ∧
+    binop "eq" a b = binop "eq" b a ∧ binop "lt" a b = binop "gt" b a ∧
+    binop "le" a b = binop "ge" b a := by
+  refine ⟨?_, ?_, ?_, rfl, rfl⟩
+  · show Sexp.ofRat (a + b) = Sexp.ofRat (b + a)
+    rw [Rat.add_comm]
+  · show Sexp.ofRat (a * b) = Sexp.ofRat (b * a)
+    rw [Rat.mul_comm]
+  · show Sexp.ofBool (decide (a = b)) = Sexp.ofBool (decide (b = a))
+    rw [decide_eq_decide.mpr (eq_comm (a := a) (b := b))]
+
+/-- `a = b * (a // b) + a % b` -/
+theorem floordiv_mod_identity (a b : Rat) : a = b * (pyFloorDiv a b : Rat) + pyMod a b :=
+  divmod_identity a b
+
+/-- `0 ≤ a % b < b` for a positive modulus -/
+theorem mod_range_pos (a b : Rat) (hb : 0 < b) : 0 ≤ pyMod a b ∧ pyMod a b < b := pyMod_pos a b hb
+
+/-- `b < a % b ≤ 0` for a negative modulus (Python's sign convention) -/
+theorem mod_range_neg (a b : Rat) (hb : b < 0) : b < pyMod a b ∧ pyMod a b ≤ 0 := pyMod_neg a b hb
+
+/-- `//` is determined by the remainder range -/
+theorem floordiv_unique (a b : Rat) (hb : 0 < b) (k : Int)
+    (h0 : 0 ≤ a - b * k) (h1 : a - b * k < b) : pyFloorDiv a b = k :=
+  pyFloorDiv_unique a b hb k h0 h1
+
+example : pyFloorDiv (-7/2) (1/3) = -11 ∧ pyMod (-7/2) (1/3) = 1/6 := by decide +kernel
+example : pyMod (7/2) (-1/3) = -1/6 := by decide +kernel
+
+/-- `round(x)` is within 1/2 of `x` and on a tie picks the even neighbour -/
+theorem round_half_even (x : Rat) :
+    |x - (roundHalfEven x : Rat)| ≤ 1 / 2 ∧
+    (|x - (roundHalfEven x : Rat)| = 1 / 2 → roundHalfEven x % 2 = 0) :=
+  roundHalfEven_spec x
+
+example : roundHalfEven (5/2) = 2 ∧ roundHalfEven (7/2) = 4 ∧ roundHalfEven (-5/2) = -2 ∧
+    roundHalfEven (-1/2) = 0 ∧ roundHalfEven (8/3) = 3 := by decide +kernel
+
+/-- `int(x)` / `trunc(x)` round toward zero -/
+theorem trunc_nonneg (x : Rat) (hx : 0 ≤ x) :
+    0 ≤ pyTrunc x ∧ (pyTrunc x : Rat) ≤ x ∧ x < (pyTrunc x : Rat) + 1 := pyTrunc_nonneg x hx
+
+theorem trunc_neg (x : Rat) (hx : x < 0) :
+    pyTrunc x ≤ 0 ∧ x ≤ (pyTrunc x : Rat) ∧ (pyTrunc x : Rat) - 1 < x := pyTrunc_neg x hx
+
+example : pyTrunc (-7/2) = -3 ∧ pyTrunc (7/2) = 3 := by decide +kernel
+
+/-- the hash of an integer-valued time is Python's integer hash `sign n * (|n| mod (2^61-1))`
+(with `-1 ↦ -2`), so `hash(TimeType(n)) == hash(n)` -/
+theorem hash_int (n : Int) : pyHashRat (n : Rat) = pyHashInt n := pyHashRat_intCast n
+
+example : pyHashRat (2 ^ 61 : Int) = 1 ∧ pyHashRat (-1 : Int) = -2 ∧ pyHashRat (1/2) = 2 ^ 60 := by
+  decide +kernel
+
+/-- equal values hash equally (the hash is a function of the rational value only) -/
+theorem hash_congr (a b : Rat) (h : a = b) : pyHashRat a = pyHashRat b := by rw [h]
+
+/-- exact binary value: the IEEE sign bit negates the value and changes nothing else -/
+theorem ofBits_sign_bit (b : Nat) (hb : b < 2 ^ 63) :
+    ofBits (b + 2 ^ 63) = (ofBits b).map (fun v => -v) := ofBits_sign b hb
+
+example : ofBits 0x3FB999999999999A = some (3602879701896397 / 36028797018963968) := by
+  decide +kernel                                                                  -- 0.1
+example : ofBits 0x7FF0000000000000 = none := by decide +kernel                  -- inf
+example : ofBits 1 = some (1 / 2 ^ 1074) := by decide +kernel                    -- 5e-324
 
 end QP.Props.C14
